@@ -43,6 +43,15 @@ def run(tier):
             texts.append(" ".join(body) + " DUP1 " + st + " " + st)                     # two stores at the end
             texts.append("PUSH1 0x9 " + " ".join(body[:-2]) + " " + st)                 # a value that stays below the chain, store last
             texts.append("PUSH1 0x9 PUSH1 0x7 " + st + " " + " ".join(body[:-2]))       # ... store first
+    # a store (every kind) whose operands are words of the initial stack, first in the block, right after another store, right after a split
+    # instruction, on shallow and on deeper stacks: what the next sub-block starts from is read off the store's operands
+    for st in ("MSTORE", "MSTORE8", "SSTORE"):
+        for tail in ("SWAP1 POP PUSH1 0x5 SWAP1 MSTORE PUSH1 0x3", "PUSH1 0x1 ADD", "DUP2 ADD SWAP1 POP"):
+            texts.append("JUMPDEST %s %s JUMP" % (st, tail))
+            texts.append("%s %s" % (st, tail))
+            for st0 in ("MSTORE", "SSTORE", "MSTORE8", "LOG0", "CALLDATACOPY"):
+                texts.append("%s %s %s" % (st0, st, tail))
+            texts.append("DUP9 DUP9 %s %s" % (st, tail))
     osets = [["-greedy"], ["-greedy", "-storage"], ["-greedy", "-partition"]]
     tasks = [{"kind": "split", "text": t, "opts": o} for t in texts for o in osets]
     groups = {}
